@@ -107,7 +107,7 @@ ReadVerdict(g, ctx, last, lim, R) ==
       \cup (IF known \cap g.gone # {} THEN {"C01", "C09"} ELSE {})
       \cup (IF \E j \in 1..Len(R) : R[j].id \in DOMAIN g.acc /\ FrameOf(R[j]) # g.acc[R[j].id]
             THEN {"C01", "C12"} ELSE {})
-      \cup (IF \E i \in known : ~InScope(g.acc[i], ctx) THEN {"C06"} ELSE {})
+      \cup (IF \E i \in known : ~InScope(g.acc[i], ctx) THEN {"C06", "C01"} ELSE {})
       \cup (IF \E i \in known : Expired(i, g.acc[i], g.clock) THEN {"C09"} ELSE {})
       \cup (IF \E p \in Skipped(g, ctx, last, lim, ids) : p \notin g.evictable
             THEN {"C01", "C08"} ELSE {})
